@@ -106,17 +106,21 @@ def run(ctx):
     p3 = Vec([ev.symbol("p.x", True), ev.symbol("p.y", True), ev.symbol("p.z", True)], "point")
     best = Vec([ev.symbol("b.x"), ev.symbol("b.y"), ev.symbol("b.z")], "point")
     x, y, bx, by = p3.items[0], p3.items[1], best.items[0], best.items[1]
-    for xm, yr, label in ((Obj("none"), Obj("none"), "defaults"), (ev.symbol("x_max"), Vec([ev.symbol("yr0"), ev.symbol("yr1")], "list"), "overrides")):
+    XM, YR = ev.symbol("x_max"), Vec([ev.symbol("yr0"), ev.symbol("yr1")], "list")
+    # each override applies on its own: all four combinations of (x_max given?, y_range given?)
+    for xm, yr, label in ((Obj("none"), Obj("none"), "defaults"), (XM, YR, "overrides"), (XM, Obj("none"), "x_max only"), (Obj("none"), YR, "y_range only")):
         env = {"points": pts, "dx": dx, "dy": dy, "dz": dz, "plot": FALSE, "x_max": xm, "y_range": yr}
         fr = Frame(ev, fi, 0)
         try:
             fr.block(pro, env, TRUE)
         except Unsupported as e:
             raise AnalysisError(f"zmethod.getPoints: prologue not modelled: {e}")
-        if label == "defaults":
-            xmax_v, ymax_v, ymin_v = sym("n"), anf.opaque("amax", pts.items[1], array=False), anf.opaque("amin", pts.items[1], array=False)
+        assume = fr.truth(XM) if xm is XM else TRUE          # a given x_max is a positive number
+        xmax_v = sym("x_max") if xm is XM else sym("n")
+        if yr is YR:
+            ymax_v, ymin_v = sym("yr0"), sym("yr1")
         else:
-            xmax_v, ymax_v, ymin_v = sym("x_max"), sym("yr0"), sym("yr1")
+            ymax_v, ymin_v = anf.opaque("amax", pts.items[1], array=False), anf.opaque("amin", pts.items[1], array=False)
         want_W = anf.f_minmax("max", [C(1), anf.opaque("int", xmax_v * dx, array=False)])
         want_H = (ymax_v - ymin_v) * dy
         # Z1 + Z4 together: the masks, evaluated with the prologue's own values for every name they use, must
@@ -136,8 +140,10 @@ def run(ctx):
                     v = env[nme]
                     # a piecewise width (truthy override / default): take the case that applies to this configuration
                     if isinstance(v, PW):
-                        picks = [c for g_, c in v.cases if (label == "overrides") == ("truthy" in repr(g_) and g_.kind != "not")]
-                        v = picks[0] if picks else v.cases[0][1]
+                        picks = [c for g_, c in v.cases if g_implies(assume, g_)]
+                        if len(picks) != 1:
+                            raise AnalysisError(f"zmethod.getPoints: {nme} is not determined by which overrides are given ({label})")
+                        v = picks[0]
                     menv[nme] = v
             menv[arr_name] = p3
             menv[unknown[0]] = best
